@@ -366,7 +366,36 @@ func genC12Case(t *rapid.T) *C12Case {
 	var bases []base
 	nb := rapid.IntRange(1, 4).Draw(t, "nBases")
 	for i := 0; i < nb; i++ {
-		switch rapid.IntRange(0, 8).Draw(t, "baseKind") {
+		switch rapid.IntRange(0, 9).Draw(t, "baseKind") {
+		case 9:
+			// a call that is turned down before anything is validated (nil / typed nil / wrong kind of
+			// source) but came loaded with rules, directly followed by an ordinary call of the same entry
+			// point: what the rejected call brought along stays with it
+			if rapid.Bool().Draw(t, "rejectedVar") {
+				bad := genScalarCall(t, mg)
+				bad.Carrier, bad.CallFns, bad.Others, bad.Again, bad.Missing, bad.ListMissing = "var", nil, nil, nil, false, nil
+				bad.BadSrc, bad.NoModel = rapid.SampledFrom([]string{"nil", "typednil", "struct", "map"}).Draw(t, "badSrcKind"), true
+				good := genScalarCall(t, mg)
+				good.Carrier, good.Others, good.Again, good.BadSrc, good.Missing, good.ListMissing = "var", nil, nil, "", false, nil
+				if good.BadSrc == "" && !strings.Contains(strings.Join(good.Rules, ","), "'") {
+					good.NoModel = false
+				}
+				bases = append(bases, base{call: &Call{V: bad}, regen: func() (desc.V, bool) { return desc.V{}, false }, then: &Call{V: good}})
+				break
+			}
+			g, ty := genMultiTagType(t, mg, 1)
+			bad := &StructCase{Root: desc.Ptr(ty), Val: desc.V{Nil: true}, NoModel: true}
+			if rapid.Bool().Draw(t, "nilInside") {
+				bad.Root, bad.Val = desc.Ptr(desc.Ptr(ty)), desc.V{E: []desc.V{{Nil: true}}}
+			}
+			bad.Unscoped = genOverride(t, ty, mg)
+			if len(bad.Unscoped) == 0 {
+				bad.Unscoped = map[string]string{"A": "required|from the rejected call", "B": "required|from the rejected call"}
+			}
+			bad.pickEntry(rapid.IntRange(0, 7).Draw(t, "badEntry"))
+			good := &StructCase{Root: desc.Ptr(ty), Val: desc.V{E: []desc.V{g.genValueFor(ty, 0)}}}
+			good.pickEntry(rapid.IntRange(0, 7).Draw(t, "goodEntry"))
+			bases = append(bases, base{call: &Call{S: bad}, regen: func() (desc.V, bool) { return desc.V{}, false }, then: &Call{S: good}})
 		case 7:
 			// an exported helper (they draw from the same buffer pool as the validators), incl. the error path of the JSON dumper
 			h := &HelperCall{Name: rapid.SampledFrom([]string{"dump", "dumpjson", "dumpjson-bad", "dumpjson-bad", "explain", "genkv", "split", "timefmt", "strescape"}).Draw(t, "helper"), Arg: genString(t, "harg", true)}
